@@ -60,6 +60,9 @@ func workerPieces(tf *testFile, reqs []rac.Range, ps *[]rac.VerifPiece) (string,
 		if len(ps) == 0 {
 			return "-"
 		}
+		if len(ps) > 2000 {
+			return fmt.Sprintf("!%d-pieces", len(ps))
+		}
 		parts := make([]string, len(ps))
 		for i, p := range ps {
 			if p.Err != nil {
